@@ -595,6 +595,30 @@ def check_bond_count_writers(ctx, rep, RULE):
             elif isinstance(nd, ast.AugAssign) and isinstance(nd.target, ast.Subscript) and isinstance(nd.target.value, ast.Attribute) \
                     and nd.target.value.attr == field:
                 probs = [] if isinstance(nd.op, (ast.Add, ast.Sub)) else ["bond count changed by %s" % type(nd.op).__name__]
+                # ... and only in a bond mutator: a function that is handed the endpoint as a parameter.  (A sweep over the table of
+                # directed bonds meets a ring bond twice -- it is filed under (a, b) and (b, a) -- so deltas applied there count it twice.)
+                idx = nd.target.slice
+
+                def endpoint(nm, depth=0):
+                    """a parameter, or a local bound only to parameters (lo, hi = (b, a) if a > b else (a, b))"""
+                    if nm in f.params:
+                        return True
+                    if depth > 2:
+                        return False
+                    srcs = []
+                    for a_ in own_nodes(f.node):
+                        if isinstance(a_, ast.Assign):
+                            for t_ in a_.targets:
+                                if any(isinstance(x, ast.Name) and x.id == nm for x in ast.walk(t_)):
+                                    srcs.append(a_.value)
+                        elif isinstance(a_, (ast.For, ast.With, ast.AugAssign, ast.NamedExpr, ast.comprehension)) and \
+                                any(isinstance(x, ast.Name) and x.id == nm and isinstance(x.ctx, ast.Store) for x in ast.walk(a_.target if hasattr(a_, "target") else a_)):
+                            return False
+                    return bool(srcs) and all(all(isinstance(x, (ast.Name, ast.Tuple, ast.IfExp, ast.Compare, ast.Load, ast.cmpop, ast.expr_context))
+                                                  and (not isinstance(x, ast.Name) or endpoint(x.id, depth + 1)) for x in ast.walk(v_)) for v_ in srcs)
+                if not (isinstance(idx, ast.Name) and endpoint(idx.id)):
+                    probs.append("bond count changed by a delta at %s outside a bond mutator that is given the bond's endpoints as parameters "
+                                 "(%s): a ring bond, stored once per direction, is counted twice by a sweep over the bonds" % (unparse(idx)[:30], f.name))
             elif isinstance(nd, ast.Call) and isinstance(nd.func, ast.Attribute) and isinstance(nd.func.value, ast.Attribute) \
                     and nd.func.value.attr == field and nd.func.attr not in ("copy", "index", "count", "__len__"):
                 ok = nd.func.attr == "append" and nd.args and isinstance(nd.args[0], ast.Constant) and nd.args[0].value == 0
